@@ -16,7 +16,9 @@ PROP = dict(
          "(WaitMasterchainSeqno and the wait inside BestMasterchainClient) x m head updates on 1..3 connections x "
          "refreshes that switch the best connection x cancellations x real 120 ms timers x waiters held at the entry "
          "of their select while heads arrive) on the real goroutines, observed after every step; adversarial schedules forced through "
-         "ctx.Done()/ID()/MasterHead() gates. non-trivial = distinct grid slice, distinct sampled configuration or "
+         "ctx.Done()/ID()/MasterHead() gates (the two original deadlocks; a waiter parked between subscribe's head "
+         "check and its registration while the target head is processed; more than cap pending updates with Run held "
+         "back, the last one reaching the target; random unsettled interleavings). non-trivial = distinct grid slice, distinct sampled configuration or "
          "distinct scenario script",
     trusted_base=[
         "hand models lean/TongoModel/PoolSelect.lean and PoolSM.lean of liteapi/pool/conn_pool.go and connection.go; "
